@@ -8,7 +8,7 @@ HARNESS = os.path.join(flexrun.VERIF, 'harness')
 
 class Config:
     def __init__(self, backend='nr', topt=('-Cem',), interactive=None, array=False, reject=False,
-                 yymore=False, stack=False, lineno=False, eof_scs=(), sanitize=True, stdio=False, ledger=False, tables=None, prefix=None):
+                 yymore=False, stack=False, lineno=False, eof_scs=(), sanitize=True, stdio=False, ledger=False, tables=None, prefix=None, yylmax=None):
         self.backend = backend
         self.topt = list(topt)
         self.interactive = interactive      # None / True / False
@@ -23,10 +23,11 @@ class Config:
         self.ledger = ledger
         self.tables = tables          # None | 'file' | 'verify'
         self.prefix = prefix
+        self.yylmax = yylmax
 
     def key(self):
-        return '%s %s I=%s arr=%d rej=%d more=%d stk=%d ln=%d eof=%s stdio=%d led=%d' % (
-            self.backend, ''.join(self.topt), self.interactive, self.array, self.reject, self.yymore,
+        return '%s %s I=%s arr=%d/%s rej=%d more=%d stk=%d ln=%d eof=%s stdio=%d led=%d' % (
+            self.backend, ''.join(self.topt), self.interactive, self.array, self.yylmax, self.reject, self.yymore,
             self.stack, self.lineno, self.eof_scs, self.stdio, self.ledger)
 
 
@@ -62,6 +63,8 @@ def lex_text(rs, cfg, rng, vary=True):
         opts += ['noyyalloc', 'noyyrealloc', 'noyyfree']
     if cfg.prefix:
         opts.append('prefix="%s"' % cfg.prefix)
+    if cfg.array and cfg.yylmax:
+        opts.append('yylmax=%d' % cfg.yylmax)
     if cfg.interactive is True:
         opts.append('interactive')
     elif cfg.interactive is False:
@@ -136,6 +139,18 @@ def case_text(rs, build, cfg, srcs, main, acts=None, wraps=None, sched=None, buf
     lines.append('bolneeded %d' % (1 if any(r['bol'] for r in rs.rules) else 0))
     lines.append('haslineno %d' % (1 if cfg.lineno else 0))
     lines.append('reentrant %d' % (1 if cfg.backend in ('r', 'c99') else 0))
+    if cfg.array:
+        lines.append('yylmax %d' % (cfg.yylmax or 8192))
+    if any(r.get('chain') for r in rs.rules):
+        # a rule with a '|' action runs the action of the next rule that has one
+        tgt = []
+        n = len(rs.rules)
+        for i, r in enumerate(rs.rules):
+            j = i
+            while j < n - 1 and rs.rules[j].get('chain'):
+                j += 1
+            tgt.append(j + 1)
+        lines.append('chain ' + ' '.join(str(t) for t in tgt) + ' %d' % (n + 1))
     if cfg.eof_scs:
         lines.append('eofscs ' + ' '.join(str(s) for s in cfg.eof_scs))
     for i, pth in enumerate(tfiles or []):
@@ -195,12 +210,25 @@ def run_model(casefile, spec=False, timeout=60):
 
 
 def first_diff(a, b):
+    """first difference between the real trace `a` and a model trace `b`.  A `mayfatal` line of the
+    model marks a token at which the generated %array scanner may report "token too large" because
+    of look-ahead text (known finding F28; depends on refill points): a real `fatal yylmax` there is
+    accepted and ends the comparison, otherwise the marker is dropped."""
     a = [l for l in a if l != '']
     b = [l for l in b if l != '']
-    n = min(len(a), len(b))
-    for i in range(n):
-        if a[i] != b[i]:
-            return i, a[i], b[i]
-    if len(a) != len(b):
-        return n, (a[n] if n < len(a) else '<none>'), (b[n] if n < len(b) else '<none>')
+    i = j = 0
+    while i < len(a) and j < len(b):
+        if b[j] == 'mayfatal':
+            if a[i] == 'fatal yylmax':
+                return None
+            j += 1
+            continue
+        if a[i] != b[j]:
+            return i, a[i], b[j]
+        i += 1
+        j += 1
+    while j < len(b) and b[j] == 'mayfatal':
+        j += 1
+    if i < len(a) or j < len(b):
+        return i, (a[i] if i < len(a) else '<none>'), (b[j] if j < len(b) else '<none>')
     return None
